@@ -43,6 +43,10 @@ type SessionWindow struct {
 	timeout time.Duration
 	// mu is used to protect concurrent access to window data
 	mu sync.RWMutex
+	// sendMu orders the results that leave the window: it is taken while mu is still
+	// held and kept until the send finished, so a late update cut after a firing can
+	// never overtake that firing on the way to the output channel.
+	sendMu sync.Mutex
 	// sessionMap stores session data for different keys
 	sessionMap map[string][]*session
 	// outputChan is a channel for sending data when window triggers
@@ -405,9 +409,11 @@ func (sw *SessionWindow) checkExpiredSessions() {
 	// path does this in checkAndTriggerSessions).
 	sw.closeExpiredSessions(now)
 	callback := sw.callback
+	sw.sendMu.Lock()
 	sw.mu.Unlock()
 
 	sw.sendResults(resultsToSend, callback)
+	sw.sendMu.Unlock()
 }
 
 func (sw *SessionWindow) checkAndTriggerSessions(watermarkTime time.Time) {
@@ -415,10 +421,12 @@ func (sw *SessionWindow) checkAndTriggerSessions(watermarkTime time.Time) {
 	resultsToSend := sw.collectExpiredSessions(watermarkTime)
 	sw.closeExpiredSessions(watermarkTime)
 	callback := sw.callback
+	sw.sendMu.Lock()
 	sw.mu.Unlock()
 	verifhook.Point("session.trigger.unlocked")
 
 	sw.sendResults(resultsToSend, callback)
+	sw.sendMu.Unlock()
 }
 
 func (sw *SessionWindow) collectExpiredSessions(currentTime time.Time) [][]types.Row {
@@ -562,9 +570,11 @@ func (sw *SessionWindow) Trigger() {
 
 	// Capture callback under the lock; release before sending to avoid blocking.
 	callback := sw.callback
+	sw.sendMu.Lock()
 	sw.mu.Unlock()
 
 	sw.sendResults(resultsToSend, callback)
+	sw.sendMu.Unlock()
 }
 
 // Reset resets session window data
@@ -631,13 +641,28 @@ func (sw *SessionWindow) SetCallback(callback func([]types.Row)) {
 // held (the "Locked" convention — re-entering the non-reentrant mutex would
 // deadlock). Returns true if the event was absorbed into a triggered session.
 func (sw *SessionWindow) handleLateData(row types.Row) bool {
+	key := extractSessionCompositeKey(row.Data, sw.config.GroupByKeys)
+	var wm time.Time
+	if sw.watermark != nil {
+		wm = sw.watermark.GetCurrentWatermark()
+	}
 	for _, info := range sw.triggeredSessions {
-		if info.session.slot.Contains(row.Timestamp) {
-			// Append the late event before re-emitting so the update includes it.
-			info.session.data = append(info.session.data, row)
-			sw.triggerLateUpdateLocked(info.session)
-			return true
+		if !info.session.slot.Contains(row.Timestamp) {
+			continue
 		}
+		// only a session of the row's own key, and only while it is still open
+		// for late data (the reaper in the trigger goroutine may lag behind)
+		if len(info.session.data) > 0 && extractSessionCompositeKey(info.session.data[0].Data, sw.config.GroupByKeys) != key {
+			continue
+		}
+		if !wm.IsZero() && !wm.Before(info.closeTime) {
+			continue
+		}
+		// Append the late event before re-emitting so the update includes it.
+		row.Slot = info.session.slot
+		info.session.data = append(info.session.data, row)
+		sw.triggerLateUpdateLocked(info.session)
+		return true
 	}
 	return false
 }
@@ -656,6 +681,7 @@ func (sw *SessionWindow) triggerLateUpdateLocked(s *session) {
 	callback := sw.callback
 
 	// Release lock before calling callback and sending to channel to avoid blocking
+	sw.sendMu.Lock()
 	sw.mu.Unlock()
 	verifhook.Point("session.late.unlocked")
 
@@ -664,6 +690,7 @@ func (sw *SessionWindow) triggerLateUpdateLocked(s *session) {
 	}
 
 	sw.sendResult(resultData)
+	sw.sendMu.Unlock()
 
 	// Re-acquire lock
 	sw.mu.Lock()
